@@ -12,9 +12,14 @@
    hypotheses are exercised by the correspondence check (the model is fed the keys of the
    WHOLE stream, the implementation the fragments).  Everything else -- the drain loop, the
    feed-and-drain loop over the bounded buffer, the translation of keys into events, the
-   held-button record -- is proved.  The overall level is therefore "partial". *)
+   held-button record -- is proved.  The overall level is therefore "partial".
+   The hypotheses are satisfiable by a non-trivial tokenizer: InputRefTok.ref_tok decodes C0 /
+   ASCII, UTF-8 with U+FFFD for malformed input, Alt keys, SS3, CSI and SGR mouse reports, and is
+   PROVED to meet all of them (C20_reference_tokenizer); for it C20_chunking and
+   C20_timed_chunking hold without hypotheses (C20_chunking_reference, C20_timed_chunking_reference).
+   ref_tok is a reference decoder of the same byte syntax, not a model of libtermkey. *)
 From Coq Require Import ZArith List.
-From Tickit Require Import InputDefs InputSpec InputProofs.
+From Tickit Require Import InputDefs InputSpec InputProofs InputRefTok.
 Import ListNotations.
 Local Open Scope Z_scope.
 
@@ -124,6 +129,43 @@ Print Assumptions C20_chunking_refuted_pinned.
 
 (* non-vacuity: a tokenizer that meets all four hypotheses, a held-button history, and a
    fragmented stream that the bounded loop handles *)
+(* ---- a concrete tokenizer that meets the hypotheses *)
+Theorem C20_reference_tokenizer :
+  (forall b m k n, ref_tok b = TKey k n -> ref_tok (b ++ m) = TKey k n) /\
+  (forall b k n, ref_tok b = TKey k n -> (0 < n <= length b)%nat) /\
+  (forall b, ref_tok b = TAgain -> (length b < REF_CAP)%nat) /\
+  (forall b, ref_tok b = TNone -> b = []).
+Proof. exact (conj ref_tok_stable (conj ref_tok_len (conj ref_again_cap ref_tok_none_empty))). Qed.
+Print Assumptions C20_reference_tokenizer.
+
+(* fragmentation independence for the reference tokenizer (UTF-8, CSI, SS3, SGR mouse) through
+   the feed-and-drain loop over a 256-byte buffer: every fragmentation, every start state *)
+Theorem C20_chunking_reference : forall chunks c s, (length (i_buf s) < REF_CAP)%nat ->
+  push_chunks ref_tok REF_CAP s (c :: chunks) = push_bytes ref_tok REF_CAP s (concat (c :: chunks)).
+Proof. exact ref_chunking. Qed.
+Print Assumptions C20_chunking_reference.
+
+Theorem C20_timed_chunking_reference : forall wait steps c g now ts,
+  (forall c0 gap, In (c0, gap) ((c, g) :: steps) -> 0 <= gap < wait) ->
+  (length (i_buf (t_in ts)) < REF_CAP)%nat ->
+  match push_bytes ref_tok REF_CAP (t_in ts) (concat (map fst ((c, g) :: steps))) with
+  | Some (evs, s') => exists ms d, timed_run ref_tok REF_CAP wait false now ts ((c, g) :: steps) = Some (evs, ms, mkT s' d)
+  | None => timed_run ref_tok REF_CAP wait false now ts ((c, g) :: steps) = None
+  end.
+Proof. exact ref_timed_chunking. Qed.
+Print Assumptions C20_timed_chunking_reference.
+
+(* a 36-byte stream with every kind of token (ASCII, 2- and 3-byte UTF-8, CSI, SS3, Alt, SGR press
+   and release, a stray continuation byte, a control) decodes to ten events, the same for each
+   of the 37 ways of cutting it in two *)
+Theorem C20_reference_stream :
+  push_bytes ref_tok REF_CAP ist0 ref_stream = Some (ref_events, mkI [] 0 false) /\
+  forallb (fun i => match push_chunks ref_tok REF_CAP ist0 [firstn i ref_stream; skipn i ref_stream] with
+                    | Some (e, s) => andb (events_eqb e ref_events) (Nat.eqb (length (i_buf s)) 0)
+                    | None => false end) (seq 0 37) = true.
+Proof. exact ref_stream_cuts. Qed.
+Print Assumptions C20_reference_stream.
+
 Example C20_nonvacuous :
   (forall b m k n, demo_tok b = TKey k n -> demo_tok (b ++ m) = TKey k n) /\
   (forall b k n, demo_tok b = TKey k n -> (0 < n <= length b)%nat) /\
